@@ -215,7 +215,8 @@ NextX == ~st.taint /\
   \/ StepX("Flush", <<>>, DoFlush(Clear(st)))
   \/ StepX("Commit", <<>>, DoCommit(Clear(st))) \/ StepX("Rollback", <<>>, DoRollback(Clear(st)))
   \* (an unreferenced object that the autoflush inside get() makes clean is collected before the SELECT: not generated)
-  \/ (On("Get") /\ (Clean(st) \/ \A o \in Objs : st.ref[o] \/ st.life[o] = Gone) /\ \E k \in Keys : StepX("Get", <<k>>, DoGet(Clear(st), k)))
+  \* (nor while an entry has only v expired: the base get() refreshes every not fully loaded entry, the ORM only expired ones)
+  \/ (On("Get") /\ (Clean(st) \/ \A o \in Objs : st.ref[o] \/ st.life[o] = Gone) /\ (\A o \in Objs : InMapS(st, o) => st.exp[o] # {"v"}) /\ \E k \in Keys : StepX("Get", <<k>>, DoGet(Clear(st), k)))
   \/ (On("FGet") /\ ~st.needrb /\ \E k \in Keys : StepX("FGet", <<k>>, FThen(Clear(st), LAMBDA s : DoGet(s, k))))
   \/ (On("Expire") /\ StepX("ExpireAll", <<>>, DoExpireAll(Clear(st))))
   \/ (On("Close") /\ StepX("Close", <<>>, DoClose(Clear(st))))
